@@ -153,6 +153,20 @@ func $NC(a int) (res int) {
 	}
 	return res*1000 + v
 }`, entries: []*Entry{callEntry("$NC", 1, nil)}},
+	// locals named like the import names a file may already use for the runtime package (seq, sq): the generated
+	// code must not refer to the package through a name the generator's own locals shadow
+	{name: "locals-named-like-the-runtime-import", decls: baseGen + `
+$GEN{$NH(a int)}{int}{
+	seq, sq := a*2, 1
+	for i := 0; i < 2; i++ {
+		$YIELD{seq + i*sq}
+	}
+	for v := range $RANGE{$NG(seq)} {
+		sq += v
+	}
+	$YIELD{sq}
+	$RET
+}`, entries: []*Entry{drive("$NH", "int", 1, nil)}},
 	{name: "range-assign-field", decls: baseGen + `
 type $NS struct{ v, n int }
 
